@@ -153,7 +153,9 @@ class AddrKeyValidator:
         """
         if isinstance(pub_key, bytes):
             pub_key = pub_key_cls.FromBytes(pub_key)
-        elif not isinstance(pub_key, pub_key_cls):
+        # A key of a derived class is accepted only if it has the same bytes layout (ed25519-monero keys have no prefix byte)
+        elif (not isinstance(pub_key, pub_key_cls)
+              or pub_key.CompressedLength() != pub_key_cls.CompressedLength()):
             curve = EllipticCurveGetter.FromType(pub_key_cls.CurveType())
             raise TypeError(f"A {curve.Name()} public key is required"
                             f"(expected: {pub_key_cls}, got: {type(pub_key)}")
